@@ -321,6 +321,58 @@ func runC08(c *Ctx) {
 	}
 	c.sites++
 	c.Check(fname(vdc)+"#delegation-entries-copied", vdc.Pos(), len(shared) == 0 && elemCopied, ifelse(len(shared) == 0 && elemCopied, "every entry stored into the copy's delegation slice is the result of DelegationFrom.DeepCopy", "the copy's delegation slice holds the source's *DelegationFrom entries: a penalty applied through one state edits the entries of the other, whose totals and statistics were not adjusted"))
+	// ------------------------------------------------------------ V10
+	c.Rule("C08.V10", "ALWAYS-WITH", "the address index lists exactly the validators that have a record: every write of a validator record into the validator trie (updateStakingData(addr, validatorFlag, …)) is accompanied on the same paths by validatorIndex.Add of that address, every deletion (deleteStakingData(addr, validatorFlag)) by validatorIndex.Delete. The in-memory index is re-read from the trie while it is non-empty, which forgets validators created since the last root computation; the Add beside the record write is what puts them back before the index is saved")
+	c.Min(2)
+	{
+		isValFlag := func(v ssa.Value) bool {
+			u, ok := stripConv(v).(*ssa.UnOp)
+			if !ok {
+				return false
+			}
+			g, ok := u.X.(*ssa.Global)
+			return ok && g.Name() == "validatorFlag"
+		}
+		n := 0
+		for _, fn := range w.FuncsIn(statePkg) {
+			if fn.Blocks == nil || strings.HasSuffix(w.fileOf(fn.Pos()), "_test.go") {
+				continue
+			}
+			for _, ci := range callInstrs(fn) {
+				o := calleeObj(ci)
+				if o == nil || !(o.Name() == "updateStakingData" || o.Name() == "deleteStakingData") {
+					continue
+				}
+				args := callArgs(ci)
+				if len(args) < 2 || !isValFlag(args[1]) {
+					continue
+				}
+				want := "Add"
+				if o.Name() == "deleteStakingData" {
+					want = "Delete"
+				}
+				n++
+				c.sites++
+				c.sawFunc(fname(fn))
+				var gates []ssa.Instruction
+				for _, cj := range callInstrs(fn) {
+					oj := calleeObj(cj)
+					if oj == nil || oj.Name() != want || recvName(oj) != "ValidatorIndex" {
+						continue
+					}
+					aj := callArgs(cj)
+					if len(aj) > 0 && (stripConv(aj[0]) == stripConv(args[0]) || samePath(aj[0], args[0]) || termOf(aj[0], 4) == termOf(args[0], 4)) {
+						gates = append(gates, cj.(ssa.Instruction))
+					}
+				}
+				ok := alwaysWith(ci.(ssa.Instruction), gates)
+				c.Check(fmt.Sprintf("%s#record-and-index-together-%d", fname(fn), n), ci.Pos(), ok, ifelse(ok, "validatorIndex."+want+" of the same address on the same paths", "a validator record is "+ifelse(want == "Add", "written to", "deleted from")+" the trie without the address index being updated on the same paths: record and statistics are committed but the index does not list the validator (or still lists a removed one), also after commit and reopen"))
+			}
+		}
+		if n == 0 {
+			c.Undecided("core/state#validator-record-writes", 0, "no updateStakingData / deleteStakingData call with validatorFlag found")
+		}
+	}
 }
 
 func incArgLoose(pred func(ssa.Value) bool, v ssa.Value) bool {
